@@ -50,6 +50,9 @@ def plan(tier, seed):
 
 
 def classify(name, w):
+    if name == "run.raising_cleanup_fails_owner_and_run" and isinstance(w, dict) and w.get("skip_called_on_owner_after_its_cleanup_failed") \
+            and w.get("verdict") is True and w.get("status") in ("passed", "skipped", "failed"):
+        return "cleanup-error-lost-after-later-skip"
     return name
 
 
@@ -590,6 +593,34 @@ def two_runs_on_one_runner(lab, mon, rng, n):
         mon.check("tworuns.cleanups_exactly_once_in_their_own_run", not bad and any(k[1] == 1 for k in ran_in),
                   lambda: W(registered_in_run__executed_in_runs=bad, log=log[:12]))
 
+def cleanup_error_then_skip(lab, mon, rng, n):
+    """A scenario whose cleanup raised is 'error'.  Later user code (a fail-fast environment) calls feature.skip() because ANOTHER
+    scenario failed: the statement says a raising cleanup makes the owning element fail -- it should still be failed afterwards."""
+    for i in range(n):
+        feat = {"kind": "feature", "tags": [], "name": "F0", "desc": [], "background": None, "file": "f0.feature", "items": [
+            {"kind": "scenario", "tags": [], "name": "F0S1", "desc": [], "steps": [{"kw": "Given", "text": "k1 fine"}, {"kw": "Then", "text": "k2 fine"}]},
+            {"kind": "scenario", "tags": [], "name": "F0S2", "desc": [], "steps": [{"kw": "Given", "text": "k3 breaks"}, {"kw": "Then", "text": "k4 fine"}]}]}
+        program = {"features": [feat], "outcomes": {"k3 breaks": rng.choice(["fail", "error"])}}
+        late_skip = i % 2 == 0
+
+        def plug(state, context, name, elem, tag):
+            if name == "before_scenario" and elem.name == "F0S1":
+                def bad_cleanup():
+                    raise RuntimeError("injected cleanup failure")
+                context.add_cleanup(bad_cleanup)
+            if late_skip and name == "after_scenario" and elem.name == "F0S2":
+                context.feature.skip(reason="fail fast")
+        obs = lab.run(program, args=[], hook_plugins=[plug])
+        case = {"program": program, "args": [], "cfg": {"tags": None, "stop": False, "dry_run": False, "names": None, "cafs": False}}
+        mon.case(("cleanup-then-skip", late_skip, program["outcomes"]["k3 breaks"]), True)
+        if obs.escaped is not None:
+            mon.check("run.no_exception_escapes", False, lambda: RB.witness(case, escaped=repr(obs.escaped)))
+            continue
+        st = obs.elem_status.get("F0S1")
+        mon.check("run.raising_cleanup_fails_owner_and_run", st == "error" and bool(obs.verdict) is True,
+                  lambda: dict(owner="F0S1", status=st, verdict=bool(obs.verdict), skip_called_on_owner_after_its_cleanup_failed=late_skip,
+                               statuses=obs.elem_status))
+
 
 def execute_steps_runs(lab, mon, rng, n):
     for i in range(n):
@@ -675,6 +706,8 @@ def run(spec, mon):
         real_run(lab, mon, rng, case, sample=(i == 0 and shard == 0))
     execute_steps_runs(lab, mon, rng, 3 if tier == "quick" else 100)
     two_runs_on_one_runner(lab, mon, rng, 4 if tier == "quick" else 150)
+    if shard == 0:
+        cleanup_error_then_skip(lab, mon, rng, 4)
 
 
 def replay(case, mon):
